@@ -352,7 +352,7 @@ def play(name, calls, seed):
             exc, msg = type(e).__name__, str(e)[:120]
             tb = traceback.extract_tb(e.__traceback__)
             fr = tb[-1]
-            where = [os.path.basename(fr.filename), fr.name]
+            where = [os.path.basename(fr.filename), fr.name, (os.sep + "menelaus" + os.sep) in fr.filename]
             frames = [[os.path.basename(f.filename), f.name] for f in tb]
         if exc is None:
             n_acc += 1
@@ -455,10 +455,15 @@ def first_deviation(name, calls, recs):
 
 
 def refused_by_validation(r):
-    """ValueError raised by the base-class validators (detector.py) or directly by a guard in the detector's own
-    update()/set_reference(); anything raised deeper (numpy, sklearn, helper methods) comes from the body"""
-    return r["exc"] == "ValueError" and r["where"] is not None and \
-        (r["where"][0] == "detector.py" or r["where"][1] in ("update", "set_reference"))
+    """ValueError raised by a `raise` statement of the library itself (innermost frame inside the menelaus package: the
+    base-class validators of detector.py, a guard in the detector's update()/set_reference() or in a helper it calls);
+    a ValueError coming out of numpy / pandas / sklearn (innermost frame outside the package) comes from the body.
+    Where inside the library the guard is written does not matter."""
+    w = r["where"]
+    if r["exc"] != "ValueError" or w is None:
+        return False
+    in_pkg = w[2] if len(w) > 2 else (w[0] == "detector.py" or w[1] in ("update", "set_reference"))
+    return bool(in_pkg)
 
 
 def passed_validation(name, r):
